@@ -72,8 +72,15 @@ def pins_session3c():
         mod([('A', Ty('OCTET STRING', size=Rng(0, 10, True)))]), 'A', b'\x01' * 16384, codec='per')
 
 
+def pins_session3d():
+    pin('C01', 'oer-graphicstring-tag',
+        mod([('A', Ty('CHOICE', root=[M('e', Ty('GraphicString')), M('t', Ty('GeneralString'))]))], tagdefault=''),
+        'A', ('e', 'w'), codec='oer')
+
+
 def main():
     late_pins()
+    pins_session3d()
     pins_session3c()
     pins_session3b()
     pins_session3()
